@@ -313,6 +313,10 @@ def matrix():
                ("assign", True), ("assign", {"salt": "x"}), ("assign", None), ("challenge", "hunter2!"), ("str",), ("basic",)]
         ops += [("python", good), ("load", good, "tree"), ("challenge", "hunter2!")]
         ops += [("python", b) for b in bads] + [("load", b, "tree") for b in bads[:6]]
+        short = base64.b64encode(dv.digest[:8]).decode()
+        ops += [("load", dict(good, digest=""), "tree"), ("challenge", "hunter2!"), ("load", dict(good, digest=short), "json"),
+                ("challenge", "hunter2!"), ("load", dict(good, salt=""), "tree"), ("challenge", "hunter2!"), ("challenge", ""),
+                ("load", good, "tree")]
         ops += [("python", b"raw-bytes"), ("python", 5), ("python", None), ("python", [1]), ("python", "plain" + rstr(rng, 5))]
         ops += [("create", "abcdef", None), ("create", "abcdef", b""), ("create", "abcdef", salt[:-1]), ("create", b"abcdef", salt),
                 ("create", "abcdef", salt + b"extra"), ("create", "\ud800", None), ("create", "\ud800", salt[:1])]
@@ -776,6 +780,21 @@ def oracle(c, obs):
                 bad.append("op %d: challenge with the right secret failed: %r" % (i, o))
             if not expect and o != ("err", "value"):
                 bad.append("op %d: challenge with a wrong secret did not raise ValueError: %r" % (i, o))
+        if k == "create" and is_secret(op[1]) and enc(op[1]) is not None:
+            given = op[2]
+            if given and len(given) < ds:
+                if ok:
+                    bad.append("op %d: a given salt shorter than the digest size was accepted" % i)
+            elif not ok or not isinstance(o[1], Digest):
+                bad.append("op %d: hashing a secret with %s salt failed: %r" % (i, "a given" if given else "a fresh", o))
+            else:
+                dv = o[1]
+                if given and (dv.salt != given[:ds] or calls):
+                    bad.append("op %d: the given salt was not used (truncated to the digest size) or random bytes were drawn" % i)
+                if not given and (len(calls) != 1 or calls[0] != (ds, dv.salt)):
+                    bad.append("op %d: no fresh os.urandom(digest_size) salt" % i)
+                if dv.digest != hh(a, dv.salt + enc(op[1])) or dv.alg != a:
+                    bad.append("op %d: digest is not %s(salt + plaintext) recomputed with hashlib" % (i, ALGS[a]))
         if k == "basic" and isinstance(stored, Digest):
             want = {"salt": base64.b64encode(stored.salt).decode(), "digest": base64.b64encode(stored.digest).decode()}
             if o != ("ok", want):
